@@ -9,6 +9,20 @@ pub struct DropObs {
     pub after: Vec<u8>,
 }
 
+/// Uninitialised bytes of a value (padding, the unused tail of a union arm) hold whatever the stack held
+/// before.  So that such bytes are recognisable (they follow the fill pattern, like untouched heap bytes),
+/// the stack below the current frame is overwritten with the fill pattern right before the constructing call.
+pub static SCRUB_FILL: core::sync::atomic::AtomicU8 = core::sync::atomic::AtomicU8::new(0);
+#[inline(never)]
+pub fn scrub() {
+    let fill = SCRUB_FILL.load(core::sync::atomic::Ordering::Relaxed);
+    let mut a = [0u8; 192 * 1024];
+    for b in a.iter_mut() {
+        *b = fill;
+    }
+    std::hint::black_box(&mut a);
+}
+
 /// generic clone through a function pointer chosen at the concrete type (see `types.rs`)
 pub fn probe<T: Ct>(key: &[u8], fill: u8, route: Route) -> Option<DropObs> {
     let size = core::mem::size_of::<T>();
@@ -17,16 +31,23 @@ pub fn probe<T: Ct>(key: &[u8], fill: u8, route: Route) -> Option<DropObs> {
         return None;
     }
     // build the value first (on the stack / wherever), then move it into the observed storage
+    SCRUB_FILL.store(fill, core::sync::atomic::Ordering::Relaxed);
     let val: T = match route {
-        Route::New => T::new_slice(key).ok()?,
+        Route::New => {
+            scrub();
+            T::new_slice(key).ok()?
+        }
         Route::Clone => {
             let orig = T::new_slice(key).ok()?;
+            scrub();
             T::clone_self(&orig)?
         }
+        // from_enc_key scrubs between building the Enc instance and converting it
         Route::FromRef => T::from_enc_key(key, true)?,
         Route::FromVal => T::from_enc_key(key, false)?,
         Route::CloneOfFrom => {
             let orig = T::from_enc_key(key, true)?;
+            scrub();
             T::clone_self(&orig)?
         }
     };
